@@ -20,7 +20,7 @@ from props.c04 import vshape
 
 ID = "C08"
 TITLE = "Options that are optimizations never change results"
-RULE = ("Hypothesis draws a type program, the remaining options (aliaser, additional_properties, fall_back_on_default; "
+RULE = ("Hypothesis draws a type program (incl. std converted types and serialized methods), the remaining options (aliaser, additional_properties, fall_back_on_default; "
         "exclude_none / exclude_defaults for serialization), 3-6 data (valid, mutants, atoms) and 2-4 typed values.  "
         "Deserialization variants: no_copy x settings.deserialization.override_dataclass_constructors x {deserialize, "
         "deserialization_method} x pass_through in {(), (a generated class,)}: all must return canon-equal values or "
@@ -49,7 +49,7 @@ PT_VARIANTS = [
 
 @st.composite
 def strategy_(draw, tier):
-    cfg = {"max_depth": 3 if tier == "quick" else 4, "lit_in_union": False, "unsup": False}
+    cfg = {"max_depth": 3 if tier == "quick" else 4, "methods": True, "std": True, "lit_in_union": False, "unsup": False}
     prog = draw(gen.programs(cfg))
     opts = {"aliaser": pick(draw, ["id", "id", "camel", "pfx"]), "additional_properties": chance(draw, 0.25),
             "fall_back_on_default": chance(draw, 0.15), "exclude_none": chance(draw, 0.25), "exclude_defaults": chance(draw, 0.25)}
